@@ -71,6 +71,11 @@ Proof. vm_compute. repeat split; reflexivity. Qed.
 
 (* a connection also ends by heartbeat timeout: in the model that is the socket-loss label; that the code arms the
    timeout whenever a heartbeat was negotiated and renews the read deadline in its reader is read off /repo on every run *)
+(* the order inside Channel.close that the model's atomic channel_close stands on (translator/cmd/broker, every run) *)
+Theorem C14_generated_close_order : close_stops_consumers_before_requeue = true.
+Proof. reflexivity. Qed.
+Print Assumptions C14_generated_close_order.
+
 Theorem C14_generated_dead_peer_detection : heartbeat_always_arms_timeout = true /\ reader_sets_read_deadline = true.
 Proof. split; reflexivity. Qed.
 Print Assumptions C14_generated_dead_peer_detection.
